@@ -14,6 +14,7 @@ import (
 	"bufio"
 	"context"
 	"encoding/json"
+	"errors"
 	"fmt"
 	"os"
 
@@ -235,6 +236,15 @@ func (db *DB) basicExport(ctx context.Context, config *client.BackupConfig) (err
 
 		firstDoc := true
 		for docResultWithID := range docIDsCh {
+			doc, err := col.Get(ctx, docResultWithID.ID, false)
+			if errors.Is(err, client.ErrDocumentNotFoundOrNotAuthorized) {
+				// a deleted document is still listed among the docIDs of the collection,
+				// it is not part of the backup
+				continue
+			}
+			if err != nil {
+				return err
+			}
 			if firstDoc {
 				firstDoc = false
 			} else {
@@ -243,10 +253,6 @@ func (db *DB) basicExport(ctx context.Context, config *client.BackupConfig) (err
 				if err != nil {
 					return err
 				}
-			}
-			doc, err := col.Get(ctx, docResultWithID.ID, false)
-			if err != nil {
-				return err
 			}
 
 			isSelfReference := false
